@@ -257,6 +257,8 @@ def _keep1(osy, rng, res, sig, name, form, dt, case):
 def _operands(osy, rng, asg, dt, shape, nonzero=False):
     u1, u2 = _units_for(rng, asg)
     dt2 = dt if rng.random() < 0.7 else gen.draw_dtype(rng)
+    if not gen.float32_safe(osy, (dt, dt2), (u1, u2)):
+        dt = dt2 = "float64"       # float32 numbers would over/underflow in the conversion itself
     v1 = gen.draw_values(rng, shape, dt, small=True, nonzero=nonzero)
     a = osy.Array(values=v1.copy(), unit=u1, name="a")
     if asg == "plain-number":
